@@ -34,7 +34,7 @@ CHECKS = {
   ref="DESIGN.md section 3 C04"),
  "C09": dict(
   text="Bounded symbolic model checking, differential: optimizer A runs on the stand-in with symbolic gradients/hyperparameters; at every stop step its real distributed_state_dict() is deep-copied and loaded by the real load_distributed_state_dict() into a freshly constructed optimizer B; parameters and every state tensor of A and B must be equal terms after each remaining step. Key uniqueness (flat keys = state tensors) and strictness of loading (a solver-chosen index removes a flat entry / renames a parameter / changes the group key; loading must raise).",
-  note="Trusted: as C01 (real arithmetic, recording stubs that are functions of their arguments); T<=3 (quick)/4 (thorough); generic equality regime; serial layout and DDP/DTensor layout (world 2 on the rank simulator; DDP counterexamples have no real-backend replay and would be inconclusive); torch.save serialisation outside the claim.",
+  note="Trusted: as C01 (real arithmetic, recording stubs that are functions of their arguments); T<=3 (quick)/4 (thorough); generic equality regime; serial layout and DDP/DTensor layout (world 2 on the rank simulator; replay on real gloo processes); torch.save serialisation outside the claim.",
   ref="DESIGN.md section 3 C09"),
  "C13": dict(
   text="Bounded symbolic model checking with a symbolic outcome per matrix-routine call (success / raise / NaN / Inf result), symbolic gradient presence, NaN gradients and a symbolic integer tolerance N: a per-block reference counter decides on every path whether step() must raise; failed factors keep their matrix; non-finite factors/results raise PreconditionerValueError with all parameters unchanged; stored roots/eigenbases never carry the non-finite marker. Shampoo and SOAP lists.",
